@@ -21,6 +21,7 @@ type Ev struct {
 	Order   string // byte order expression for binary.Read/Write ("" for raw byte copies)
 	Loop    int    // loop nesting depth
 	LoopInit string // "i := 0" for a three-clause loop
+	ConstVal string // value of the written expression when it is a compile-time constant
 	LoopX   string // innermost loop's range expression / condition
 	Cond    bool   // executed conditionally (inside an if/switch/func literal body)
 	BufSize string // for variable-length reads: how the buffer was sized
@@ -169,9 +170,12 @@ func Extract(pkg *packages.Package, fd *ast.FuncDecl) []Ev {
 			ev.Kind, ev.Order = "write", exprStr(call.Args[1])
 			ev.Field = exprStr(resolve(call.Args[2]))
 			ev.Width = SizeOf(info.TypeOf(call.Args[2]))
+			if tv, ok := info.Types[call.Args[2]]; ok && tv.Value != nil {
+				ev.ConstVal = tv.Value.ExactString()
+			}
 		case full == "(*bytes.Buffer).Write":
 			ev.Kind = "write"
-			arg := call.Args[0]
+			arg := resolve(call.Args[0])
 			if sl, ok := arg.(*ast.SliceExpr); ok && sl.Low == nil && sl.High == nil {
 				if s := SizeOf(info.TypeOf(sl.X)); s > 0 {
 					if _, isArr := info.TypeOf(sl.X).Underlying().(*types.Array); isArr {
@@ -191,6 +195,9 @@ func Extract(pkg *packages.Package, fd *ast.FuncDecl) []Ev {
 			ev.Kind, ev.Width, ev.Field = "write", -1, "[]byte("+exprStr(call.Args[0])+")"
 		case full == "(*bytes.Buffer).WriteByte":
 			ev.Kind, ev.Width, ev.Field = "write", 1, exprStr(call.Args[0])
+			if tv, ok := info.Types[call.Args[0]]; ok && tv.Value != nil {
+				ev.ConstVal = tv.Value.ExactString()
+			}
 		case full == "encoding/binary.Read":
 			ev.Kind, ev.Order = "read", exprStr(call.Args[1])
 			dst := call.Args[2]
@@ -244,6 +251,10 @@ func Extract(pkg *packages.Package, fd *ast.FuncDecl) []Ev {
 					}
 					ev.Loop++
 					ev.LoopX = exprStr(p.Cond)
+					if be, ok := p.Cond.(*ast.BinaryExpr); ok {
+						// a bound hoisted into a local (`n := len(v.Signatures)`)
+						ev.LoopX = exprStr(be.X) + " " + be.Op.String() + " " + exprStr(resolve(be.Y))
+					}
 					if as, ok := p.Init.(*ast.AssignStmt); ok && len(as.Lhs) == 1 && len(as.Rhs) == 1 {
 						ev.LoopInit = exprStr(as.Lhs[0]) + " := " + exprStr(as.Rhs[0])
 					}
